@@ -102,7 +102,7 @@ func c02HistOne(c *mc.Ctx, k c02Hist) {
 			switch k.Decoder {
 			case skDecStream:
 				er = NewEnvReader(stream, k.Env)
-				r = bufiox.NewDefaultReader(er)
+				r = bufiox.NewDefaultReader(er.Src())
 				if round == 1 {
 					r = customReader{r} // the pooled decoder is handed out again, now over a reader type of the caller's own
 				}
@@ -117,7 +117,7 @@ func c02HistOne(c *mc.Ctx, k c02Hist) {
 				d, release = sd, sd.Release
 			case skReaderSkip:
 				er = NewEnvReader(stream, k.Env)
-				sd := thrift.NewReaderSkipDecoder(er)
+				sd := thrift.NewReaderSkipDecoder(er.Src())
 				d, release = sd, sd.Release
 			}
 			pos := 0
